@@ -394,7 +394,7 @@ func zzFirstHelloAnswer12() {
 // hello verification enabled that answers a first ClientHello with a cookie request must not have generated
 // an ephemeral (EC)DH key pair for it - the source address is still unverified.
 //
-//symgo:entry covers=cookie_request,non_default_curve,refused
+//symgo:entry covers=cookie_request,non_default_curve,refused,ecdhe_psk,plain_psk
 func zzNoKeyWorkBeforeCookie12() {
 	cfg := zzServerConfig()
 	state := zzServerState()
@@ -404,6 +404,20 @@ func zzNoKeyWorkBeforeCookie12() {
 	// preference order (a client preferring P-256 or offering only P-384 makes the server select a curve other
 	// than its default one)
 	ch1 := zzFirstHello(0, 0, zzsymChoice("ch1_ext", 6))
+	// the suite family must not matter (seed C13k-2): certificate ECDHE, ECDHE_PSK (the one PSK family with an
+	// ephemeral key) and plain PSK, each offered by the client and configured on the server
+	switch zzsymChoice("family", 3) {
+	case 1:
+		cfg.LocalCipherSuites = []dtlsconfig.CipherSuite{ciphersuite.NewTLSEcdhePskWithAes128CbcSha256()}
+		cfg.LocalPSKCallback = func([]byte) ([]byte, error) { return []byte{1, 2, 3}, nil }
+		ch1 = zzBuildHello(0, []byte{0xfe, 0xfd}, ch1.random, ch1.sid, ch1.cookie, []byte{0xc0, 0x37}, []byte{0}, ch1.ext)
+		zzsymCover("ecdhe_psk")
+	case 2:
+		cfg.LocalCipherSuites = []dtlsconfig.CipherSuite{&ciphersuite.TLSPskWithAes128GcmSha256{}}
+		cfg.LocalPSKCallback = func([]byte) ([]byte, error) { return []byte{1, 2, 3}, nil }
+		ch1 = zzBuildHello(0, []byte{0xfe, 0xfd}, ch1.random, ch1.sid, ch1.cookie, []byte{0x00, 0xa8}, []byte{0}, ch1.ext)
+		zzsymCover("plain_psk")
+	}
 	cache.Push(ch1.raw, 0, 0, handshake.TypeClientHello, true)
 	f, a, err := flight0Parse(context.Background(), nil, state, cache, cfg)
 	if err != nil || a != nil {
